@@ -173,6 +173,74 @@ pub fn check_extensions(scn: &Scenario) -> Result<CaseInfo, String> {
     Ok(ci)
 }
 
+/// Histories that go on after deviations. The property states a necessary condition for every call: the
+/// i-th call MADE to any ordered method is accepted only if it targets the method of slot i and its
+/// arguments match slot i's pattern, and it then gets that slot's response. Checked on the real run
+/// alone (responses are answers(): every accepted call yields the tag of the pattern that answered).
+pub fn cfg_after_deviation() -> Cfg {
+    let mut c = cfg();
+    c.resps = vec![Resp::Answers, Resp::AnswersArc];
+    c.stop_at_deviation = false;
+    c.guide = 170;
+    c.prefer_match = 60;
+    c.max_history = 24;
+    c
+}
+
+pub fn check_after_deviation(scn: &Scenario) -> Result<CaseInfo, String> {
+    let model = match Model::new(scn.partial, &scn.clauses, &FACTS) {
+        Ok(m) => m,
+        Err(_) => return Ok(CaseInfo::new(false).class("construct-error")),
+    };
+    let real = crate::exec::run_real(scn);
+    if let Some(e) = real.construct_error {
+        return Err(format!("construction of a consistent setup panicked: {e}"));
+    }
+    let ordered_methods: std::collections::BTreeSet<u8> = model.methods.iter().filter(|(_, m)| m.ordered).map(|(k, _)| *k).collect();
+    let mut made = 0usize; // calls made to ordered methods so far
+    let mut rejected = 0usize;
+    let mut accepted_after_rejection = false;
+    for (k, ((obs, _), call)) in real.calls.iter().zip(scn.history.iter()).enumerate() {
+        if !ordered_methods.contains(&call.method) {
+            continue;
+        }
+        let i = made;
+        made += 1;
+        match obs {
+            Obs::Value(v) if *v >= 1 && *v < 5_000_000 => {
+                let Some((sm, spi)) = model.slots.get(i) else {
+                    return Err(format!(
+                        "call #{k} {}({}) is ordered call number {} but the sequence has only {} positions, and it was accepted (returned {v})",
+                        FACTS[call.method as usize].path, call.arg, i + 1, model.slots.len()
+                    ));
+                };
+                let pat = &model.methods[sm].pats[*spi];
+                if *sm != call.method || (pat.mask >> call.arg) & 1 == 0 {
+                    return Err(format!(
+                        "call #{k} {}({}) is ordered call number {} (after {rejected} rejected ones); position {} expects {} with accept set {:#010b}, yet the call was accepted (returned {v})",
+                        FACTS[call.method as usize].path, call.arg, i + 1, i + 1, FACTS[*sm as usize].path, pat.mask
+                    ));
+                }
+                let id = ((*v - 1) / 100) as u16;
+                if id != pat.id {
+                    return Err(format!(
+                        "call #{k} {}({}) is ordered call number {}: answered by pattern P{id}, position {} belongs to P{}",
+                        FACTS[call.method as usize].path, call.arg, i + 1, i + 1, pat.id
+                    ));
+                }
+                if rejected > 0 {
+                    accepted_after_rejection = true;
+                }
+            }
+            Obs::MockPanic(_) => rejected += 1,
+            _ => {}
+        }
+    }
+    Ok(CaseInfo::new(accepted_after_rejection)
+        .class_if(accepted_after_rejection, "ordered-call-accepted-after-an-earlier-rejection")
+        .class_if(rejected >= 2, "two-or-more-rejected-calls"))
+}
+
 pub const RULE: &str = "walk = generated mocks with 2-8 next_call clauses over up to 4 ordered methods (implicit count, once, n_times(0..3), response chains inside a slot range) interleaved with unordered clauses of other methods; histories are model-guided random walks (p=0.8 the expected next call, else any call: wrong method / wrong argument / past the end / unordered method), stopped at the first deviation. prefix-x-next = for each generated configuration, every prefix of an accepted walk extended by every (mentioned method, argument 0..8) on a fresh mock. Non-trivial = >= 2 ordered methods, some ordered count >= 2, and the history has an unordered call between ordered ones or ends in a deviation; distinct = distinct scenario";
 
 pub fn run(ctx: &Ctx) -> Verdict {
@@ -180,7 +248,7 @@ pub fn run(ctx: &Ctx) -> Verdict {
     v.explanation = "Model = one global slot sequence; the returned tag identifies the slot's pattern and segment. A deviating call must panic (and verification must then report it), calls to unordered methods must not move the sequence, complete sequences verify silently and short ones name the unconsumed patterns.".into();
     v.assumptions = vec![
         "each clause is wrapped in the DynClause hook (its builder type is only known at run time); the clause list itself is a production tuple of that arity".into(),
-        "behaviour of ordered calls after the first deviation is not compared (not defined by the property)".into(),
+        "after the first deviation only the property's necessary condition is checked (sub-check after-deviation): the i-th call made to an ordered method may be accepted only by slot i".into(),
     ];
     v.subs.push(super::replay_corpus(ctx));
     let n = ctx.tier.pick(200_000, 5_000_000);
@@ -197,6 +265,7 @@ pub fn run(ctx: &Ctx) -> Verdict {
         serde_json::json!("each evaluation is one configuration; all its prefix x next-call extensions are executed (typically 100-600 real runs per configuration)"),
     );
     v.subs.push(sub);
+    v.subs.push(vcore::run_proptest(ctx, "after-deviation", n / 2, gen::scenario(cfg_after_deviation()), check_after_deviation));
     // long clause lists: the mock is a real tuple of up to 16 clauses, the ordered sequence spans all of it
     let mut cw = cfg();
     cw.max_clauses = 16;
@@ -214,7 +283,9 @@ pub fn run(ctx: &Ctx) -> Verdict {
 
 pub fn replay(sub: &str, case: Value) -> Result<(), String> {
     let scn: Scenario = serde_json::from_value(case).map_err(|e| format!("HARNESS: bad case: {e}"))?;
-    if sub == "prefix-x-next" {
+    if sub == "after-deviation" {
+        check_after_deviation(&scn).map(|_| ())
+    } else if sub == "prefix-x-next" {
         check_extensions(&scn).map(|_| ())
     } else {
         check(&scn).map(|_| ())
